@@ -26,7 +26,7 @@ pub fn vbincode_deserialize_take<T: VSerde, S: VStream>(s: &mut S, limit: Option
 #[verifier::external_body]
 pub fn vbincode_serialize_into<T: VSerde, W: VSink>(w: &mut W, limit: Option<u64>, fixint: bool, value: &T) -> (r: Result<(), ()>)
     requires old(w).wf(), fixint,
-    ensures final(w).wf(), final(w).flushed() == old(w).flushed(),
+    ensures final(w).wf(), final(w).shape() == old(w).shape(), final(w).flushed() == old(w).flushed(),
         r is Ok ==> final(w).log() == old(w).log() + value.enc(),
         r is Err ==> exists|k: int| 0 <= k <= value.enc().len() && final(w).log() == old(w).log() + value.enc().subrange(0, k),
 { unimplemented!() }
